@@ -396,8 +396,8 @@ void ep8_mul_sim_dig(ep8_t r, const ep8_t p[], const dig_t k[], size_t len) {
 
 	ep8_null(t);
 
-	max = util_bits_dig(k[0]);
-	for (int i = 1; i < len; i++) {
+	max = 0;
+	for (int i = 0; i < len; i++) {
 		max = RLC_MAX(max, util_bits_dig(k[i]));
 	}
 
